@@ -2,14 +2,18 @@ import ScVerif.Base.Line
 import ScVerif.C19.Electric
 import ScVerif.C19.Events
 import ScVerif.C19.Named
-/-! Driver handler for C19 (stateful: one electric model per driver process, `reset` starts afresh).
+import ScVerif.C19.Keyed
+/-! Driver handler for C19 (stateful: one electric model per driver process, `reset` starts afresh).  The state is
+the KEYED model (`Keyed.lean`: records stored under keys); on states where every record carries its key it is the
+model of `Electric.lean` (`C19_keyed_refines`), and its events are those of `Events.lean` (`C19_keyed_events`).
 
 ```
 reset | config <active mode> <mode;mode;…|->      (initial state: NewModel with WithInitialMode / WithInitialActiveMode)
+kconfig <active mode> <k<keyhex>=mode;…|->        (WithModeOption(resource.WithInitialRecord(key, mode))…)
 find <id>
 create <mode> <cands>      add <mode>        update <mode> <mask> [w<createIfAbsent 0|1><expectAbsent 0|1> <expected mode|->
                                                                      [<reset mask> <check name|-> <before name|-> <after name|->]]
-delete <id> <0|1> [<expected mode|->]
+delete <id> <0|1> [<expected mode|-> [<check name|->]]
 setactive <mode>           change <id> <now> clear <now>
 s.create <mode> <cands>    s.update <mode> <mask>   s.delete <id> <0|1>   s.change <id> <now>   s.clear <now>
   mode  = m:<idhex>:<titlehex>:<0|1>:<start|->[:<deschex>:<volts>:<seg,seg|->]        id = i<hex>
@@ -125,12 +129,15 @@ def parseOp? : List String → Option Op
     pure (.update (← parseMode? m) (← parseMask? k)
       { w with reset := (← parseMask? r), check := (← parseNamed? namedCheck? c),
                before := (← parseNamed? namedIcpt? b), after := (← parseNamed? namedIcpt? a) })
-  | ["delete", i, a] => do pure (.delete (← parseId? i) (← parseBool? a) none)
-  | ["delete", i, a, e] => do pure (.delete (← parseId? i) (← parseBool? a) (← parseExpected? e))
+  | ["delete", i, a] => do pure (.delete (← parseId? i) (← parseBool? a) {})
+  | ["delete", i, a, e] => do pure (.delete (← parseId? i) (← parseBool? a) { expected := (← parseExpected? e) })
+  | ["delete", i, a, e, c] => do
+    pure (.delete (← parseId? i) (← parseBool? a) { expected := (← parseExpected? e), check := (← parseNamed? namedCheck? c) })
   | ["setactive", m] => do pure (.setActive (← parseMode? m))
   | ["change", i, t] => do pure (.changeActive (← parseId? i) (← parseNat? t))
   | ["clear", t] => do pure (.clear (← parseNat? t))
   | ["find", i] => do pure (.findMode (← parseId? i))
+  | ["s.create", "nil", c] => do let _ ← parseCands? c; pure .sCreateNil
   | ["s.create", m, c] => do pure (.sCreate (← parseMode? m) (← parseCands? c))
   | ["s.update", m, k] => do pure (.sUpdate (← parseMode? m) (← parseMask? k))
   | ["s.delete", i, a] => do pure (.sDelete (← parseId? i) (← parseBool? a))
@@ -147,23 +154,45 @@ def showRes : Res → String
 def showSt (s : St) : String :=
   s!"modes=[{";".intercalate (s.modes.map showMode)}] active={showMode s.active} normal={match normalMode s with | none => "-" | some m => showMode m} changed={if s.changed then "1" else "0"}"
 
-def handleS (s : St) (toks : List String) : St × String :=
+/-- `k<keyhex>=<mode>` -/
+def parseRec? (s : String) : Option Rec :=
+  match s.splitOn "=" with
+  | [k, m] => do
+    if !k.startsWith "k" then none
+    let key ← unhex? (k.drop 1).toString
+    let m ← parseMode? m
+    pure (key, m)
+  | _ => none
+
+def KSt.init : KSt := KSt.ofSt St.init
+
+def handleS (k : KSt) (toks : List String) : KSt × String :=
   match toks with
-  | ["reset"] => (St.init, "ok")
+  | ["reset"] => (KSt.init, "ok")
   | ["config", a, ms] =>
     -- NewModel(WithInitialMode(ms…), WithInitialActiveMode(a))
     match parseMode? a, (if ms = "-" then some [] else (ms.splitOn ";").mapM parseMode?) with
     | some a, some ms =>
       match St.config? ms a with
-      | some s0 => (s0, "ok " ++ showSt s0)
-      | none => (St.init, "panic")
-    | _, _ => (s, "!bad-op")
+      | some s0 => (KSt.ofSt s0, "ok " ++ showSt s0)
+      | none => (KSt.init, "panic")
+    | _, _ => (k, "!bad-op")
+  | ["kconfig", a, rs] =>
+    -- NewModel(WithModeOption(resource.WithInitialRecord(key, mode))…, WithInitialActiveMode(a))
+    match parseMode? a, (if rs = "-" then some [] else (rs.splitOn ";").mapM parseRec?) with
+    | some a, some rs =>
+      match KSt.config? rs a with
+      | some k0 => (k0, "ok " ++ showSt k0.abs)
+      | none => (KSt.init, "panic")
+    | _, _ => (k, "!bad-op")
   | _ =>
     match parseOp? toks with
     | some op =>
-      let (s', r) := step s op
-      let evs := s!" events=[{";".intercalate ((modeEvents s op).map showEvent)}] active-events=[{";".intercalate ((activeEvents s op).map showMode)}]"
-      (s', showRes r ++ " " ++ showSt s' ++ evs)
-    | none => (s, "!bad-op")
+      let (k', r) := kstep k op
+      -- the events of the keyed model; on states where every record carries its key they are `modeEvents` /
+      -- `activeEvents` of Events.lean (`C19_keyed_events`)
+      let evs := s!" events=[{";".intercalate ((kmodeEvents k op).map showEvent)}] active-events=[{";".intercalate ((kactiveEvents k op).map showMode)}]"
+      (k', showRes r ++ " " ++ showSt k'.abs ++ evs)
+    | none => (k, "!bad-op")
 
 end ScVerif.C19
